@@ -175,6 +175,14 @@ def sk_dot(Rk):
                         yield mk("dot", [[ax(n, n in contr) for n in i1], [ax(n, n in contr) for n in i2]], [[ax(n) for n in perm]])
 
 
+def sk_dot3():
+    """three operands (chains and a shared batch axis)"""
+    A, B, C, D = "abcd"
+    yield mk("dot", [[ax(A), ax(B, True)], [ax(B, True), ax(C, True)], [ax(C, True), ax(D)]], [[ax(A), ax(D)]])
+    yield mk("dot", [[ax(A), ax(B, True)], [ax(C, True), ax(B, True)], [ax(D), ax(C, True)]], [[ax(D), ax(A)]])
+    yield mk("dot", [[ax(A), ax(B, True)], [ax(A), ax(B, True), ax(C, True)], [ax(C, True), ax(A)]], [[ax(A)]])
+
+
 def sk_preserve(Rk, op="flip"):
     for inp in canon_seqs(Rk, minrank=1, repeats=False):
         n = len(inp)
@@ -299,7 +307,7 @@ def skeletons(op, Rk):
             return sk_elem(min(Rk, 2), op, nin=3)
         return sk_elem(Rk, op, nin=2)
     if fam == "dot":
-        return sk_dot(Rk)
+        return itertools.chain(sk_dot(Rk), sk_dot3())
     if fam == "get_at":
         return sk_get_at(Rk)
     if fam == "update_at":
@@ -504,6 +512,8 @@ def assign_sizes(d, sizeset):
             v = 3
         elif sizeset in ("x2", "x3"):
             v = PRIMES[i % len(PRIMES)] * int(sizeset[1])
+        elif sizeset == "x64":
+            v = PRIMES[i % len(PRIMES)] * 64
         else:
             u = int(sizeset[4:])
             if u >= len(names):
@@ -513,13 +523,14 @@ def assign_sizes(d, sizeset):
             c = d.env[n][1]
             if sizeset == "distinct": v = tuple([v, v + 1, v + 2][:c])
             elif sizeset in ("x2", "x3"): v = tuple(q * int(sizeset[1]) for q in [v // int(sizeset[1]), v // int(sizeset[1]) + 1, v // int(sizeset[1]) + 2][:c])
+            elif sizeset == "x64": v = tuple(q * 64 for q in [v // 64, v // 64 + 1, v // 64 + 2][:c])
             else: v = tuple([v] * c)
         env[n] = v
     if "..." in d.env:
         c = d.env["..."][1]
-        m = int(sizeset[1]) if sizeset in ("x2", "x3") else 1
-        base = PRIMES[len(names) % len(PRIMES)] if sizeset in ("distinct", "x2", "x3") else (3 if sizeset == "all3" else 2)
-        env["..."] = tuple(q * m for q in [base, base + 1, base + 2][:c]) if sizeset in ("distinct", "x2", "x3") else tuple([base] * c)
+        m = int(sizeset[1:]) if sizeset in ("x2", "x3", "x64") else 1
+        base = PRIMES[len(names) % len(PRIMES)] if sizeset in ("distinct", "x2", "x3", "x64") else (3 if sizeset == "all3" else 2)
+        env["..."] = tuple(q * m for q in [base, base + 1, base + 2][:c]) if sizeset in ("distinct", "x2", "x3", "x64") else tuple([base] * c)
     return env
 
 
@@ -651,7 +662,8 @@ def corpus_descs(ops, Rk, k, menu=None):
     seen = set()
     for op in ops:
         for sk in skeletons(op, Rk):
-            for d in decorated(sk, k, menu):
+            # skeletons with many tensors (block assembly) get at most one decoration: their decorated variants grow with the number of tensors
+            for d in decorated(sk, min(k, 1) if len(sk.ins) + len(sk.outs or ()) > 3 else k, menu):
                 key = (op, show(d), repr(sorted((a, b) for a, b in d.env.items())))
                 if key not in seen:
                     seen.add(key)
@@ -664,7 +676,7 @@ def corpus(ops, Rk, k, sizesets=("distinct", "all2"), menu=None, limit=None):
     out = []
     for op in ops:
         for sk in skeletons(op, Rk):
-            for d in decorated(sk, k, menu):
+            for d in decorated(sk, min(k, 1) if len(sk.ins) + len(sk.outs or ()) > 3 else k, menu):
                 for ss in sizesets:
                     c = materialize(d, ss)
                     if c is None or c.key in seen:
